@@ -1,4 +1,4 @@
-import NixModel.Lemmas.C16Create
+import NixModel.Lemmas.C16Schema
 import NixModel.Pure.FrameShape
 import NixModel.Generated.FrameShape
 /-!
@@ -125,6 +125,35 @@ theorem C16_frame (f0 : Frame) (hist : List Op) (op : Op) (r c : Nat)
   | writeCellPos cell pos => exact frame_writeCellPos h
   | writeCellName cell name ri => exact frame_writeCellName h
   | setUnits us => exact frame_setUnits
+
+/-- **frame for the schema**: only `append_column` changes the columns (names, types, order); only `units = …`
+    and `append_column` change the units; only `append_rows` changes the number of rows — for every operation,
+    accepted or refused -/
+theorem C16_schema_frame (f : Frame) (op : Op) :
+    ((∀ col name dt, op ≠ .appendColumn col name dt) → (step f op).1.cols = f.cols) ∧
+    ((∀ col name dt, op ≠ .appendColumn col name dt) → (∀ us, op ≠ .setUnits us) →
+      (step f op).1.units = f.units) ∧
+    ((∀ rows, op ≠ .appendRows rows) → (step f op).1.rows.length = f.rows.length) :=
+  ⟨step_cols f op, step_units f op, step_nrows f op⟩
+
+theorem created_namesOK {f : Frame} (h : Created f) : NamesOK f := by
+  cases h with
+  | dict h => exact namesOK_createWith h
+  | namesTypes h => exact namesOK_createWith (createNamesTypes_spec h).2.2
+  | namesData h =>
+    obtain ⟨_, _, _, h2⟩ := createNamesData_spec h
+    exact namesOK_createWith (createNamesTypes_spec h2).2.2
+  | struct h => exact namesOK_createWith (createStruct_spec h).2
+
+/-- **the appended column carries the given name**: after any history, an accepted `append_column(col, name)`
+    (proper name) leaves the existing columns as they are and adds `(name, type)` as the last column, the type
+    being the requested one or, without one, the Python type of the first cell -/
+theorem C16_append_column_named (f0 : Frame) (hist : List Op) (hc : Created f0) (col : List Val) (name : String)
+    (dt : Option ColType) (f' : Frame) (hne : name ≠ "")
+    (h : step (run f0 hist) (.appendColumn col name dt) = (f', none)) :
+    ∃ t, f'.cols = (run f0 hist).cols ++ [(name, t)] ∧ (∀ t0, dt = some t0 → t = t0) ∧
+      (dt = none → ∃ v, col.head? = some v ∧ t = typeOfVal v) :=
+  appendColumn_named (namesOK_run (created_namesOK hc) hist) hne h
 
 /-- what the report functions say about a frame -/
 def Describes (f : Frame) : Prop :=
@@ -497,6 +526,7 @@ example : readCellPos exFrame [-1, 0] = .ok (.int 2) ∧ readCellName exFrame "a
 /-- duplicate name / unknown column / wrong cell refusals have instances -/
 example : "a" ∈ exFrame.names ∧ findCol exFrame.cols "nope" = none ∧ conv .i8 (.int 300) = .error .valueError :=
   ⟨by decide, by decide, rfl⟩
+example : (step exFrame (.appendColumn [.flt 1, .flt 2] "x" none)).1.cols = exFrame.cols ++ [("x", .f64)] := by decide
 /-- creation variants on concrete input -/
 example : (createNamesData ["n", "t"] (some [[.int 1, .str "x"]])).map (·.cols) = .ok [("n", .i64), ("t", .text)] ∧
     (createNamesTypes ["a", "a"] [.i8, .i8] none).toOption = none ∧
